@@ -1020,11 +1020,14 @@ theorem ident_nulFree {n : Str} (h : isIdentStr n = true) : n.all (· ≠ '\x00'
     have hr : r.all (· ≠ '\x00') = true := by
       rw [hsplit, List.all_append, h1, h2]; rfl
     have hc0 := lower_ne hc '\x00' (by decide)
-    simp [hc0, hr]
+    simp only [List.all_cons, Bool.and_eq_true, decide_eq_true_eq]
+    exact ⟨hc0, hr⟩
 
 mutual
 theorem layP_nulFree : ∀ {t : T} {ps : List Piece}, LayP t ps → nulFree ps = true
-  | _, _, .leaf hn => by simp [nulFree, ident_nulFree hn]
+  | _, _, .leaf hn => by
+    simp only [nulFree, Bool.and_eq_true]
+    exact ⟨ident_nulFree hn, trivial⟩
   | _, _, .empty => by decide
   | _, _, .flat hi => by
     have := itemsP_nulFree hi
